@@ -1072,7 +1072,8 @@ pub fn print(ctx: &Ctx, rng: &mut Rng, o: &mut Out) {
   let mut rec_oracle = Tally::new("c16_json_fields");
   let mut cover_oracle = Tally::new("c16_json_lines_cover");
   let mut rep_oracle = Tally::new("c16_text_lines");
-  // the confirmed witness of the plain-text defect, always replayed first
+  // the witness of the plain-text defect repaired in /repo 0b29009 (a match ending with a
+  // newline), kept as a regression input and replayed first
   {
     let src = "#define X 1\nint x = 1;\n#define Y 2\nint y = 2;\n";
     let ranges = vec![(0usize, 12usize), (23, 35)];
